@@ -196,6 +196,14 @@ def check_builtin_operands(ctx, prog, tag):
                 continue
             n += 1
             ok = bool(asserted)
+            # (round 13, seed C12-13) ... *first*: where the helper is called in the function that iterates / prints, it
+            # comes before the site on every path (an `assert_value_not_undefined` moved behind an early return for the
+            # no-auto-escape case lets `missing|join(',')` through in `.txt` templates) and is asked about this operand
+            here = [k for k in f.calls() if k.name in M10_ASSERT]
+            if ok and here:
+                roots_ = {o.key() for o in os_ if o.kind == "arg"}
+                ok = any(cfg.dominates(f, k.bb, c.bb) and roots_ & {
+                    o.key() for a_ in k.args[1:] if "c" not in a_ for o in flow.origins(f, a_, through_calls=flow._xpass)} for k in here)
             reason = M10_REVIEWED.get(root.path)
             ctx.ob("C12.M10.builtin-%s-its-operand-through-the-mode" % kind, tag + root.path.split("::")[-1], ok or reason is not None,
                    ("reviewed: " + reason) if (reason and not ok) else
